@@ -52,6 +52,7 @@ package hdkeychain
 //@   ensures !old(k.isPrivate) ==> err == nil && result0 == k
 //@   ensures old(k.isPrivate) && err == nil ==> result0 != nil && fresh(result0) && !result0.isPrivate && result0.depth == k.depth && result0.childNum == k.childNum
 //@   ensures old(k.isPrivate) && err == nil ==> fresh(result0.key) && fresh(result0.chainCode) && fresh(result0.parentFP)
+//@   ensures old(k.isPrivate) && err == nil ==> len(result0.pubKey) == 0
 //@   ensures old(k.isPrivate) && err == nil ==> !sameobj(result0.key, k.pubKey) && !sameobj(result0.key, k.key) && !sameobj(result0.chainCode, k.chainCode) && !sameobj(result0.parentFP, k.parentFP)
 //@   ensures old(k.isPrivate) && err == nil ==> len(result0.chainCode) == len(k.chainCode) && forall j :: 0 <= j && j < len(k.chainCode) ==> result0.chainCode[j] == k.chainCode[j]
 //@   ensures old(k.isPrivate) && err == nil ==> len(result0.parentFP) == len(k.parentFP) && forall j :: 0 <= j && j < len(k.parentFP) ==> result0.parentFP[j] == k.parentFP[j]
